@@ -275,6 +275,45 @@ func (c *Ctx) MarshalerContract() []core.Ob {
 			}
 			if m, ok := src.(*ssa.Call); ok && calleeName(m.Common()) == "io.MultiReader" {
 				multi, mr = true, m
+			} else if ok {
+				// a helper that builds the combined reader: prependTagType(tagType, r)
+				if g := m.Common().StaticCallee(); g != nil && c.P.InModule(g) && len(g.Blocks) > 0 {
+					var inner *ssa.Call
+					nret := 0
+					for _, b := range g.Blocks {
+						for _, in := range b.Instrs {
+							if r, isRet := in.(*ssa.Return); isRet && len(r.Results) == 1 {
+								nret++
+								rv := r.Results[0]
+								if mi, isMI := rv.(*ssa.MakeInterface); isMI {
+									rv = mi.X
+								}
+								if ic, isCall := rv.(*ssa.Call); isCall && calleeName(ic.Common()) == "io.MultiReader" {
+									inner = ic
+								} else {
+									inner = nil
+								}
+							}
+						}
+					}
+					if nret == 1 && inner != nil {
+						var nt, nr ssa.Value
+						for i, a := range m.Common().Args {
+							if i >= len(g.Params) {
+								break
+							}
+							if a == tagV {
+								nt = g.Params[i]
+							}
+							if a == rV {
+								nr = g.Params[i]
+							}
+						}
+						if nt != nil && nr != nil {
+							multi, mr, tagV, rV = true, inner, nt, nr
+						}
+					}
+				}
 			}
 			if !multi {
 				o.Status, o.Got = core.Violated, "the decoder reads r directly: the tag type byte already consumed by the caller is lost"
@@ -529,6 +568,41 @@ func (c *Ctx) ListProgress() []core.Ob {
 										}
 									}
 								}
+							}
+						}
+					}
+					// the tag and the count are handed to a check helper (checkListHeader(elemType, n) error):
+					// with the tag it is given assumed to be TagEnd, which counts does it let through?
+					for _, hb := range fn.Blocks {
+						for _, hin := range hb.Instrs {
+							hc, ok := hin.(*ssa.Call)
+							if !ok || errResultIndex(hc) < 0 {
+								continue
+							}
+							g := hc.Common().StaticCallee()
+							if g == nil || !c.P.InModule(g) || len(g.Blocks) == 0 || core.Origin(g) == entry {
+								continue
+							}
+							ti := -1
+							for i, a := range hc.Common().Args {
+								if a == tag {
+									ti = i
+								}
+							}
+							if ti < 0 || ti >= len(g.Params) {
+								continue
+							}
+							post := t.ParamPostOKAssuming(core.Origin(g), core.Origin(g).Params[ti], AV{T: ivOf(0, 0)})
+							for j, a := range hc.Common().Args {
+								if j == ti || j >= len(post) || (post[j].T == nil && post[j].P == nil) {
+									continue
+								}
+								if _, isK := a.(*ssa.Const); isK {
+									continue
+								}
+								pj := post[j]
+								pj.UB = nil
+								assume[a] = pj
 							}
 						}
 					}
